@@ -72,6 +72,9 @@ struct IMap {
     virtual bool contains( long k ) = 0;
     virtual bool extract_min( long&, long& ) { return false; }
     virtual bool extract_max( long&, long& ) { return false; }
+    // tie S on the machine side (lean/CdsVerif/Props/C18Reach.lean): the raw structure of the real object at the quiescent
+    // end of the case as ONE `SNAP …` line in the format of clients/snap.cpp; default: none
+    virtual void dump( std::ostream& ) {}
 };
 
 struct GenCfg {
@@ -498,6 +501,31 @@ struct IntrSkipNamed : IMap {
     bool erase( long k, long& v ) override { return s->erase( k, [&v]( sk_item const& item ) { v = item.val; } ); }
     bool find( long k, long& v ) override { return s->find( k, [&v]( sk_item& item, long& ) { v = item.val; } ); }
     bool contains( long k ) override { return s->contains( k ); }
+    // main thread, quiescent: `SNAP skip { L { <key> <marked> }* }*` as clients/snap.cpp prints it (one `L` group per level
+    // from the head tower, level 0 first, up to the highest non-empty level; marked = mark bits of that node's next[level]).
+    // The loads are kept out of the trace (set_quiet): the replayed machine must not see them.
+    void dump( std::ostream& out ) override
+    {
+        set_quiet( true );
+        auto* head = s->m_Head.head();
+        unsigned H = head->height();
+        std::vector<std::string> lv( H );
+        unsigned top = 0;
+        for ( unsigned lvl = 0; lvl < H; ++lvl ) {
+            unsigned n = 0;
+            for ( auto* cur = head->next( lvl ).load( atomics::memory_order_acquire ).ptr(); cur && n < 100000; ++n ) {
+                if ( cur->height() <= lvl ) { lv[lvl] += " node-linked-above-its-height"; break; }
+                auto nx = cur->next( lvl ).load( atomics::memory_order_acquire );
+                lv[lvl] += ' ' + std::to_string( static_cast<sk_item*>( cur )->key ) + ( nx.bits() ? " 1" : " 0" );
+                cur = nx.ptr();
+                top = lvl + 1;
+            }
+        }
+        out << "SNAP skip";
+        for ( unsigned lvl = 0; lvl < top; ++lvl ) out << " L" << lv[lvl];
+        out << '\n';
+        set_quiet( false );
+    }
 };
 
 // ---------------------------------------------------------------- Ellen's binary tree
@@ -778,7 +806,7 @@ struct Fixture {
     void thread_begin( int ) { set_quiet( true ); cds::threading::Manager::attachThread(); set_quiet( false ); }
     void thread_end( int ) { set_quiet( true ); cds::threading::Manager::detachThread(); set_quiet( false ); }
     std::vector<long> exec( int, Op const& op ) { tls_order_count = 0; return map_exec( *m, op ); }
-    void finish( std::ostream& ) {}
+    void finish( std::ostream& out ) { m->dump( out ); }
 };
 
 int main( int argc, char** argv )
